@@ -504,11 +504,7 @@ def _quant(m, args, node, universal):
     except Unsupported:
         items = None
     if items is not None:
-        m.nofork += 1
-        try:
-            ts = [m.truth(m.call(pred, [x], {}, node), node) for x in items]
-        finally:
-            m.nofork -= 1
+        ts = [m.truth(m.call(pred, [x], {}, node), node) for x in items]
         r = m.conj(ts) if universal else m.disj(ts)
         return r if isinstance(r, bool) else m.mk(r, "bool")
     i = z3.Int(m.fresh_name("q"))
@@ -1194,3 +1190,21 @@ def s_unchanged(m, args, kw, node):
     finally:
         m.in_spec -= 1
     return r if isinstance(r, bool) else m.mk(r, "bool")
+
+
+@specfn("forall_keys_kept")
+def s_forall_keys_kept(m, args, kw, node):
+    new, old, rk = m.force(args[0], node), m.force(args[1], node), m.force(args[2], node)
+    if not (isinstance(new, SymMap) and isinstance(old, SymMap)):
+        raise Unsupported("forall_keys_kept on %r" % (new,), node)
+    k = z3.Int(m.fresh_name("key"))
+    m.nofork += 1
+    m.in_spec += 1
+    try:
+        ev = m.equal(new.get(k), old.get(k), node)
+    finally:
+        m.nofork -= 1
+        m.in_spec -= 1
+    ev = z3.BoolVal(ev) if isinstance(ev, bool) else ev
+    body = z3.Implies(k != m.z(rk), z3.And(new.has(k) == old.has(k), z3.Implies(old.has(k), ev)))
+    return m.mk(z3.ForAll([k], body), "bool")
